@@ -42,12 +42,14 @@ SYNCED_DOT = ["synced_dict_dotkey", "synced_list_dotkey", "synced_child_dotkey"]
 SHAPES = ["top", "in_list", "in_dict", "in_tuple", "in_list_in_dict", "in_dict_in_list", "in_list_in_list", "deep3",
           "with_siblings"]
 
-D_INIT = {"d": {"x": 1}, "l": [1, {"y": 2}, [3]], "ld": [{"dl": [0, {"z": 1}]}], "s": "v"}
-L_INIT = [{"x": 1}, [1, {"y": 2}], 5, [[{"w": 0}]]]
-D_TARGETS = [[], ["d"], ["l"], ["l", 1], ["ld", 0, "dl"], ["ld", 0, "dl", 1]]
-L_TARGETS = [[], [0], [1], [1, 1], [3, 0], [3, 0, 0]]
+D_INIT = {"d": {"x": 1}, "l": [1, {"y": 2}, [3]], "ld": [{"dl": [0, {"z": 1}]}], "s": "v", "e": [], "ed": {}}
+L_INIT = [{"x": 1}, [1, {"y": 2}], 5, [[{"w": 0}]], [], {}]
+# targets include an *empty* nested list and an empty nested dict (bulk / first-fill paths)
+D_TARGETS = [[], ["d"], ["l"], ["l", 1], ["ld", 0, "dl"], ["ld", 0, "dl", 1], ["e"], ["ed"]]
+L_TARGETS = [[], [0], [1], [1, 1], [3, 0], [3, 0, 0], [4], [5]]
 DICT_ENTRIES = ["setitem", "setdefault", "update_mapping", "update_pairs", "update_kwargs", "update_mixed", "reset",
-                "update_over_container", "reset_over_container", "setitem_over_container"]
+                "update_over_container", "reset_over_container", "setitem_over_container",
+                "update_over_empty", "reset_over_empty"]
 LIST_ENTRIES = ["setitem", "slice", "append", "extend", "insert", "iadd", "reset", "extend_gen"]
 SINGLE = {"setitem", "setdefault", "append", "insert", "update_kwargs"}
 KNOWN_PUBLIC = {
@@ -397,15 +399,22 @@ def attempt(info, cell):
                     node.update(newk=val)
             elif entry == "update_mixed":
                 node.update({"ok": 1}, newk=val)
-            elif entry in ("update_over_container", "reset_over_container", "setitem_over_container"):
-                # the position already holds a nested dict or list (the merge first tries an in-place update of it)
+            elif entry in ("update_over_container", "reset_over_container", "setitem_over_container",
+                           "update_over_empty", "reset_over_empty"):
+                # the position already holds a nested dict or list (the merge first tries an in-place update of it);
+                # *_over_empty: it holds an empty list (the merge fills it in one go)
                 held = [k for k, v in node._data.items() if not isinstance(v, (str, int, float, bool, type(None)))]
+                if entry.endswith("_over_empty"):
+                    held = [k for k in held if isinstance(getattr(node._data[k], "_data", None), list)
+                            and not node._data[k]._data]
+                    if shape == "top" and not isinstance(val, (list, tuple)):
+                        val = [val]  # the filling value must be a sequence
                 if not held:
                     return None, False
                 k0 = held[0]
-                if entry == "update_over_container":
+                if entry in ("update_over_container", "update_over_empty"):
                     node.update({k0: val})
-                elif entry == "reset_over_container":
+                elif entry in ("reset_over_container", "reset_over_empty"):
                     node.reset({k0: val})
                 else:
                     node[k0] = val
